@@ -134,7 +134,7 @@ def convert(
     if to in {".c", ".h", "c"}:
         gotran2c.main(
             fname=fname,
-            suffix=to,
+            suffix=".c" if to == "c" else to,
             outname=outname,
             scheme=scheme,
             remove_unused=remove_unused,
@@ -145,7 +145,7 @@ def convert(
     if to in {".py", "python", "py"}:
         gotran2py.main(
             fname=fname,
-            suffix=to,
+            suffix=".py" if to in {"python", "py"} else to,
             outname=outname,
             scheme=scheme,
             remove_unused=remove_unused,
